@@ -22,6 +22,7 @@ def registry():
     if _REG is not None:
         return _REG
     from .memsim import engine as M
+    from .pipesim import checks as P
 
     reg = {}
 
@@ -39,6 +40,7 @@ def registry():
             batches=[
                 M.CacheHistories("mem-faultfree", False, 60000, 900000),
                 M.CacheHistories("mem-faults", True, 60000, 900000),
+                P.Programs("pipe-dcache", 25000, 400000, force={"dc_on": True, "ic_on": False}),
             ],
             design_ref="DESIGN.md §5, §7 C03",
             rule=(
@@ -75,6 +77,7 @@ def registry():
             batches=[
                 M.CacheHistories("mem-faultfree", False, 60000, 900000),
                 M.CacheHistories("mem-faults", True, 40000, 600000),
+                P.Programs("pipe-dcache", 40000, 600000, force={"dc_on": True, "ic_on": False}),
             ],
             design_ref="DESIGN.md §5, §7 C09",
             rule=(
@@ -167,6 +170,151 @@ def registry():
             state_measure="distinct small memory images (<64 cells) at the end of a run",
             time_unit="operations issued",
             required_probes=["unaligned access", "doubleword read", "accepted access through modulo-2^32 addressing"],
+        )
+    )
+
+    PIPE_REAL = [
+        "simulation/riscv_simulation.py (step, is_done)",
+        "uarch/riscv/pipeline.py, stages.py, pipeline_registers.py, register_file.py, riscv_architectural_state.py",
+        "uarch/riscv/riscv_performance_metrics.py",
+        "uarch/memory/* (flat memory, both data-cache systems, instruction memory and instruction cache)",
+        "isa/riscv/rv32i_instructions.py, instruction_types.py",
+    ]
+    PIPE_STUB = [
+        "the assembler: programs are built as instruction objects and placed with instruction_memory.write_instructions() "
+        "(the parser's last step); initial data memory is preloaded with directly_write_to_lower_memory=True as the parser does",
+    ]
+    pipe_state = (
+        "distinct abstract pipeline signatures over all ticks: (class of the instruction in each of the five latches in "
+        "{-, alu, load, store, branch, jal, jalr, ecall, upper}, pipeline.stalled (stage, remaining), flushes in this tick); "
+        "transitions = distinct signature pairs of consecutive ticks"
+    )
+    pipe_time = "ticks = five-stage step() calls (simulated cycles without penalties); retired = dynamic instructions of the reference run"
+    add(
+        CheckDef(
+            prop="C02",
+            title="five-stage + interlock == single-cycle",
+            batches=[P.Programs("pipe", 90000, 1500000)],
+            design_ref="DESIGN.md §4, §7 C02",
+            rule=(
+                "pipesim: seeded programs (<=40 static / 400 dynamic instructions, personalities: register pool 2-5, "
+                "instruction mix, shape straight/forward/loops/wild, boundary initial registers, random data memory, random "
+                "tiny data/instruction caches on both sides, motifs, fault plan with one faulting instruction placed plain / "
+                "wrong-path / in the interlock window / behind a print / before an exit) run in single-cycle mode (REF) and "
+                "five-stage mode with hazard detection, tick by tick: retire order and destination value at every "
+                "retirement, final registers/memory/output/exit code/counters, fault address and state at the fault, "
+                "termination within 20n+100 ticks. Non-trivial iff >=3 instructions retired and a stall or flush "
+                "happened; distinct = distinct event-log digest."
+            ),
+            hang_is_violation=True,
+            components_real=PIPE_REAL,
+            components_stub=PIPE_STUB,
+            assumptions=[
+                "program counter, flushes and stalls are not compared (C02 does not list them)",
+                "ALU semantics are whatever single-cycle mode does (C01 is not decided here)",
+            ],
+            state_measure=pipe_state,
+            time_unit=pipe_time,
+            required_probes=[
+                "decode stall cancelled by a flush", "interlock on rs2 only", "interlock producer at distance 2",
+                "ecall drains", "flush by jalr", "flush by exit", "branch taken to pc+4", "wrong-path store squashed",
+                "fault raised in five-stage mode",
+            ],
+        )
+    )
+    add(
+        CheckDef(
+            prop="C07",
+            title="five-stage retire times and cycle count",
+            batches=[
+                P.Programs("pipe-timing", 70000, 1200000, faults=False),
+                P.Programs("pipe-independent", 15000, 200000, faults=False, force_shape="independent"),
+            ],
+            design_ref="DESIGN.md §4.5, §7 C07",
+            rule=(
+                "pipesim: same programs as C02 (fault plan off) plus the family of n mutually independent straight-line "
+                "instructions; the tick at which every instruction retires and the total number of ticks are compared with "
+                "closed timing recurrences over the dynamic instruction stream (independent of Pipeline/Stage), n "
+                "independent instructions must take n+4, every tick must advance the cycle counter by 1 + penalties of the "
+                "misses counted in that tick. Non-trivial iff >=3 retired and an interlock, drain or redirect occurred."
+            ),
+            components_real=PIPE_REAL,
+            components_stub=PIPE_STUB,
+            assumptions=[
+                "retire ticks are compared only on the prefix on which retire addresses agree with single-cycle mode (a pure C02 failure is not re-reported)",
+                "miss counts per tick are taken from the implementation's own counters (their correctness is C09/C11)",
+            ],
+            state_measure=pipe_state,
+            time_unit=pipe_time,
+            required_probes=["independent straight-line program", "tick with a miss penalty", "ecall drains", "interlock producer at distance 1"],
+        )
+    )
+    add(
+        CheckDef(
+            prop="C08",
+            title="hazard detection off == interlock-free pipeline",
+            batches=[P.Programs("pipe-nohz", 45000, 700000)],
+            design_ref="DESIGN.md §4.6, §7 C08",
+            rule=(
+                "pipesim: same programs as C02 with dependency-dense register pools; five-stage mode without hazard "
+                "detection against a delayed-visibility register model (the repository's sequential behavior() shown a "
+                "register view containing exactly the writes whose write-back tick <= the reader's last decode tick): final "
+                "registers, memory, output, exit code, total ticks, fault address; no decode stall on any tick; the same "
+                "program with two nops behind every instruction against single-cycle mode. Non-trivial iff >=3 retired."
+            ),
+            components_real=PIPE_REAL,
+            components_stub=PIPE_STUB,
+            assumptions=["values come from the repository's own behavior(); only visibility timing comes from the model"],
+            state_measure=pipe_state,
+            time_unit=pipe_time,
+            required_probes=[
+                "run in which a stale register value was observed (and predicted)",
+                "nop-padded program compared with single-cycle mode",
+                "ecall drain with hazard detection off",
+            ],
+        )
+    )
+    add(
+        CheckDef(
+            prop="C11",
+            title="instruction cache transparent, fetch accounting",
+            batches=[P.Programs("pipe-icache", 30000, 500000, force={"ic_on": True})],
+            design_ref="DESIGN.md §7 C11",
+            rule=(
+                "pipesim: programs of C02 with a random tiny instruction cache in both modes: results and tick count equal "
+                "the run without the cache, the object in the IF latch is the object the backing instruction memory holds, "
+                "accesses == fetches derived independently (five-stage: a tick fetches iff not stalled at its start and an "
+                "instruction exists at the pre-tick pc), hits == read-only reference cache fed the observed fetch "
+                "addresses, cycle delta per tick == 1 + penalties. lifesim: reload clause. Non-trivial iff >=3 retired and "
+                ">=2 instruction-cache misses."
+            ),
+            components_real=PIPE_REAL,
+            components_stub=PIPE_STUB,
+            assumptions=["the fetch stream is derived from pipeline.stalled and the pre-tick pc, not from the counter under test"],
+            state_measure=pipe_state,
+            time_unit=pipe_time,
+            required_probes=["instruction-cache hit", "instruction-cache block straddles the program end", "redirected fetch with an instruction cache"],
+        )
+    )
+    add(
+        CheckDef(
+            prop="C15",
+            title="errors are well-typed",
+            batches=[P.Programs("pipe-faults", 30000, 500000, fault_rate=0.9)],
+            design_ref="DESIGN.md §7 C15",
+            rule=(
+                "pipesim (run-time clause): programs with a planned faulting instruction (illegal data address, wrap past "
+                "2^32, word-crossing access with a data cache, invalid ecall code) in both modes: every failure is an "
+                "InstructionExecutionException whose address is the failing instruction and whose text is repr() of the "
+                "instruction stored there. lifesim (load clause): edit sequences under the auto-parse timer. Non-trivial iff a "
+                "fault was raised."
+            ),
+            components_real=PIPE_REAL,
+            components_stub=PIPE_STUB,
+            assumptions=["TOY has no reachable run-time failure with the documented 4096-word memory; that half is vacuous"],
+            state_measure=pipe_state,
+            time_unit=pipe_time,
+            required_probes=["run-time fault in five-stage mode"],
         )
     )
     _REG = reg
